@@ -96,7 +96,7 @@ OuterLoop:
 						// Signed int
 						arg = int64(n)
 						outFormat[i] = 'd' // No 'i' verb in Go
-					case 'x', 'X':
+					case 'o', 'x', 'X':
 						arg = uint64(n) // Need to convert to unsigned
 					default:
 						arg = int64(n)
